@@ -310,8 +310,9 @@ structure PState where
   inflight : Option Inflight := none
   taken : List Snap := []
   failed : List Nat := []
-  /-- the blocklist directory does not exist (fresh install): `New` does not create it,
-  `refreshRemote` does one second after start-up; until then `os.CreateTemp` fails -/
+  /-- the blocklist directory does not exist (it was never created, or was removed
+  under the running process): `os.CreateTemp` fails by itself.  `New` creates it
+  (`loadInitial`: `os.MkdirAll`, since commit 231fcf6), and so does `refreshRemote`. -/
   dirMissing : Bool := false
   /-- staging files stranded in the directory by earlier crashes (nothing removes
   `local.tmp.*`; every directory walk parses them) -/
@@ -340,7 +341,7 @@ inductive Step
   /-- `readBlocklists()`: the directory walk of `refreshRemote` (scheduled by `New`
   one second after start-up) or of any other caller, at an arbitrary moment -/
   | dirLoad
-  /-- `os.Mkdir(BlockListDir)` at the head of `refreshRemote` -/
+  /-- `os.MkdirAll(BlockListDir)` in `loadInitial` / `os.Mkdir` at the head of `refreshRemote` -/
   | mkdir
 deriving Repr, DecidableEq
 
@@ -436,11 +437,12 @@ def crashImage (s : PState) : Option (List Str) × Option (List Str) :=
 /-- **Kill and restart**: the process dies now and `New` runs over what is on
 disk (`loadInitial`: whitelist, `cfg.Blocklist`, then `readBlocklists` over the
 directory).  Memory is rebuilt from the configuration, the main file and every
-staging file in the directory; no file is written, the stranded staging file
-stays where it is. -/
+staging file in the directory; no list file is written, the stranded staging file
+stays where it is; a missing directory is created (`dirMissing := false`). -/
 def restart (whitelist cfgBlocklist : List Str) (s : PState) : PState :=
   let orph := s.orphans ++ strandedNow s
-  { mem := dirLoadMem (loadConfig whitelist cfgBlocklist) s.main orph, main := s.main, orphans := orph }
+  { mem := dirLoadMem (loadConfig whitelist cfgBlocklist) s.main orph, main := s.main, orphans := orph,
+    dirMissing := false }
 
 /-- a whole life: the first process runs `steps0`, then each element of `epochs`
 is "killed at that point, restarted, ran these steps". -/
